@@ -94,19 +94,37 @@ Definition block_resolution (v : view) (q : Q) : Q :=
   let mb := c_mean (nthc (v_cs v) (snd (straddle_idx v q))) in
   inject_Z (blockw (v_cs v) ma + (if Qeq_bool ma mb then 0 else blockw (v_cs v) mb)) / tq v.
 
-(* ---------------- in-process histories ---------------- *)
+(* ---------------- histories ---------------- *)
 Inductive hist : Type :=
 | HNew (k : Z)
-| HUpd (h : hist) (x : Q)          (* update with a finite value *)
+| HImage (d0 : td)                 (* a digest deserialized from a valid image (state d0) *)
+| HUpd (h : hist) (x : Q)          (* update with a finite value (NaN / infinities are ignored: Model td_update_with) *)
 | HCompress (h : hist)             (* any operation that compresses: query, serialize, freeze *)
 | HMerge (h1 h2 : hist).
 
+(* the finite values offered by update, merges included (an image contributes its own total, below) *)
 Fixpoint values (h : hist) : list Q :=
   match h with
-  | HNew _ => []
+  | HNew _ | HImage _ => []
   | HUpd h x => values h ++ [x]
   | HCompress h => values h
   | HMerge h1 h2 => values h1 ++ values h2
+  end.
+(* total weight brought in by the images of a history *)
+Fixpoint image_weight (h : hist) : Z :=
+  match h with
+  | HNew _ => 0
+  | HImage d0 => td_total d0
+  | HUpd h _ | HCompress h => image_weight h
+  | HMerge h1 h2 => image_weight h1 + image_weight h2
+  end%Z.
+(* in-process: built from TDigestMut::new only *)
+Fixpoint inprocess (h : hist) : Prop :=
+  match h with
+  | HNew _ => True
+  | HImage _ => False
+  | HUpd h _ | HCompress h => inprocess h
+  | HMerge h1 h2 => inprocess h1 /\ inprocess h2
   end.
 
 Definition le_all (m : Q) (l : list Q) : Prop := forall x, In x l -> m <= x.
@@ -118,11 +136,25 @@ Definition is_min (o : option Q) (l : list Q) : Prop :=
 Definition is_max (o : option Q) (l : list Q) : Prop :=
   match o with None => l = [] | Some m => InQ m l /\ ge_all m l end.
 
+(* a valid decoded image: what deserialize accepts AND the format promises (sorted means inside
+   [min, max], consistent weights); heavy end centroids and any number of buffered values allowed *)
+Definition in_range (d : td) (x : Q) : Prop :=
+  match td_min d, td_max d with Some mn, Some mx => mn <= x /\ x <= mx | _, _ => False end.
+Record image_ok (d0 : td) : Prop := mkImageOk {
+  io_k : (10 <= td_k d0)%Z;
+  io_cw : td_cw d0 = sumw (td_cs d0);
+  io_sorted : sortedP (td_cs d0);
+  io_cs : forall c, In c (td_cs d0) -> in_range d0 (c_mean c);
+  io_buf : forall x, In x (td_buf d0) -> in_range d0 x;
+  io_empty : td_cs d0 = [] -> td_buf d0 = [] -> td_min d0 = None /\ td_max d0 = None
+}.
+
 (* [reach h d]: the model of TDigestMut can be in state d after history h, where every merge
    pass (whose decisions depend on ln and are not recomputed) may produce ANY output allowed
    by the exact merge relation [merge_rel 0] *)
 Inductive reach : hist -> td -> Prop :=
 | R_new k d : td_new k = Ok d -> reach (HNew k) d
+| R_image d0 : image_ok d0 -> reach (HImage d0) d0
 | R_upd_room h d x :
     reach h d -> td_needs_compress_on_update d = false -> reach (HUpd h x) (td_push d x)
 | R_upd_full h d x out :
@@ -138,6 +170,15 @@ Inductive reach : hist -> td -> Prop :=
     reach h1 d -> reach h2 o -> td_is_empty o = false ->
     merge_rel 0 (td_rev d) (merge_input d o) out ->
     reach (HMerge h1 h2) (td_merge_with d o out).
+
+(* histories whose constructor calls meet their preconditions *)
+Fixpoint hist_ok (h : hist) : Prop :=
+  match h with
+  | HNew k => (10 <= k)%Z
+  | HImage d0 => image_ok d0
+  | HUpd h _ | HCompress h => hist_ok h
+  | HMerge h1 h2 => hist_ok h1 /\ hist_ok h2
+  end.
 
 (* sum of a list of rationals; non-decreasing lists *)
 Fixpoint qsum (l : list Q) : Q := match l with [] => 0 | x :: r => x + qsum r end.
